@@ -21,7 +21,17 @@ pub struct Stats {
     pub polls: AtomicUsize,
     pub pendings: AtomicUsize,
     pub max_request: AtomicUsize,
+    /// non-empty reads answered with 0 bytes after the end of the data
+    pub eof_reads: AtomicUsize,
 }
+
+thread_local! {
+    /// Set when a reader has been asked for data more than `EOF_READ_LIMIT` times after it
+    /// reported end of input: the consumer ignores EOF and would spin forever. `block_on`
+    /// turns it into its "did not finish" result.
+    static EOF_SPIN: std::cell::Cell<bool> = const { std::cell::Cell::new(false) };
+}
+pub const EOF_READ_LIMIT: usize = 256;
 
 /// Delivers `data` following `script` (cycled; empty script = everything at once).
 /// After the data is exhausted it reports EOF (0 bytes), like a closed socket.
@@ -94,6 +104,12 @@ impl AsyncRead for ScriptedReader {
         if k == 0 {
             // EOF (or a zero-sized request): the chunk is spent
             me.avail = 0;
+            if left == 0 && buf.remaining() > 0 && me.stats.eof_reads.fetch_add(1, Ordering::Relaxed) >= EOF_READ_LIMIT {
+                // a consumer that keeps reading after EOF never terminates on its own: break
+                // its loop with an error and remember why
+                EOF_SPIN.with(|f| f.set(true));
+                return Poll::Ready(Err(std::io::Error::new(std::io::ErrorKind::Other, "harness: reader polled again and again after end of input")));
+            }
         }
         me.stats.handed.fetch_add(k, Ordering::Relaxed);
         Poll::Ready(Ok(()))
@@ -118,8 +134,13 @@ pub fn block_on<F: Future>(fut: F, budget: usize) -> Result<F::Output, PollBudge
     let waker = noop_waker();
     let mut cx = Context::from_waker(&waker);
     let mut fut = std::pin::pin!(fut);
+    EOF_SPIN.with(|f| f.set(false));
     for _ in 0..budget {
         if let Poll::Ready(v) = fut.as_mut().poll(&mut cx) {
+            if EOF_SPIN.with(|f| f.replace(false)) {
+                // the future only came back because the reader broke an endless read loop
+                return Err(PollBudgetExceeded(usize::MAX));
+            }
             return Ok(v);
         }
     }
